@@ -156,7 +156,6 @@ Theorem C04_prnt_row_order_free :
            {| ds_sstr := sstr; ds_types := types; ds_insts := insts2; ds_roots := roots; ds_next := next |} =
          Ok out.
 Proof. exact prnt_row_order_free. Qed.
-
 (* ==== THE REAL READER MODEL ON FILES OF ANOTHER WRITER: the spec encoder with all its freedoms (Proofs/BinSpecRead.v).
    columns  for all 31 document column types and BOTH rotation encodings (id form and nine floats), dec_col of the real reader model applied to
             the spec encoder's column yields the values the column describes (retyped by the canonical type; Int32->Int64 and Float32->Float64
@@ -216,34 +215,6 @@ Theorem C04_reader_on_spec_file_gen :
        finish p st.
 Proof. exact reader_on_spec_file_gen. Qed.
 
-Theorem C04_reader_decodes_spec_file_structure :
-  forall (d : db) (p : dec_params) (u : bool) (order : list bs_okey) (cmps : list compression)
-         (f : bs_file) (F : list BinFinish.ztree),
-       dp_lim p = None ->
-       bs_wf f = true ->
-       gframes_rt p cmps (List.map (bs_enc_item rdA u) (bs_items_of order f)) ->
-       let items := flat_map (item_of_key f) order in
-       scan d [] 0 items = true ->
-       inst_prnt_ok false items = true ->
-       bs_prnts items = [bf_prnt f] ->
-       NoDup (all_refs (bs_insts items)) ->
-       BinFinish.rows_describe (bf_prnt f) F ->
-       NoDup (BinFinish.zfrefs F) ->
-       incl (BinFinish.zfrefs F) (all_refs (bs_insts items)) ->
-       exists (st : dstate) (out : cdom),
-         run_items d p dstate0 (bs_items_of order f) = Some st /\
-         decode_file d p
-           (bs_enc_header (bs_header_of f) ++
-            gframe_all cmps (List.map (bs_enc_item rdA u) (bs_items_of order f))) = 
-         Ok out /\
-         BinFinish.reconstructs (BinFinish.dinst_of (ds_insts st)) p F out /\
-         (forall (c : bs_class) (r : Z),
-          In c (bs_insts items) ->
-          In r (cls_refs c) ->
-          di_class (BinFinish.dinst_of (ds_insts st) r) = cls_name c /\
-          di_children (BinFinish.dinst_of (ds_insts st) r) = BinFinish.rows_to r (bf_prnt f)).
-Proof. exact reader_decodes_spec_file_structure. Qed.
-
 Theorem C04_forest_of_describes :
   forall rows : list (Z * Z),
        NoDup (List.map fst rows) ->
@@ -262,6 +233,23 @@ Theorem C04_spec_dom_closed :
        dom_facts f -> bspec_to_dom f = Ok (List.map (mk_node (f_kids f) (f_ai f)) (bf_prnt f)).
 Proof. exact spec_dom_closed. Qed.
 
+Theorem C04_fold_is_node :
+  forall (cl : bs_class) (k : nat) (sstr : list (bytes * bytes)) (lo : Z -> N)
+         (sstr' : list (bytes * bytes)) (phi : N -> N) (P props : list bs_prop),
+       List.map snd sstr' = List.map snd sstr ->
+       Permutation.Permutation P props ->
+       (forall pr : bs_prop, In pr props -> prop_file_ok sstr lo pr) ->
+       NoDup (List.map bp_name (filter (pq cl) props)) ->
+       let R := fold_left (pstep sstr' (fun z : Z => phi (lo z)) cl k) P (cls_name cl, []) in
+       let ps := BinSpecAgree.row k (BinSpecAgree.ccols sstr lo (cls_id cl) props) in
+       fst R = match fst (take_name ps) with
+               | Some s0 => s0
+               | None => cls_name cl
+               end /\
+       (forall key : bytes,
+        bfind key (collect_props (snd R)) = option_map (Tval phi) (bfind key (snd (take_name ps)))).
+Proof. exact fold_is_node. Qed.
+
 Theorem C04_reader_decodes_spec_file_dom :
   forall (d : db) (p : dec_params) (u : bool) (order : list bs_okey) (cmps : list compression)
          (f : bs_file) (P1 P2 : list bs_item),
@@ -276,7 +264,7 @@ Theorem C04_reader_decodes_spec_file_dom :
        scan d [] 0 (P1 ++ P2) = true ->
        inst_prnt_ok false (P1 ++ P2) = true ->
        scan d (bs_insts P1) (sstr_total P1) P2 = true ->
-       forallb (prop_unknown d (bs_insts P1)) (bs_props P2) = true ->
+       forallb (prop_nonmig d (bs_insts P1)) (bs_props P2) = true ->
        exists (st : dstate) (out : cdom) (nodes : list bs_node),
          run_items d p dstate0 (bs_items_of order f) = Some st /\
          decode_file d p
@@ -284,8 +272,38 @@ Theorem C04_reader_decodes_spec_file_dom :
             gframe_all cmps (List.map (bs_enc_item rdA u) (bs_items_of order f))) = 
          Ok out /\
          bspec_to_dom f = Ok nodes /\
-         same_dom (phi_of (f_kids f) (D_of st)) (node_rec f p st (bs_props P2)) nodes out.
+         same_dom (phi_of (f_kids f) (D_of st)) (node_rec d f p st (bs_props P2)) nodes out.
 Proof. exact reader_decodes_spec_file_dom. Qed.
+
+Theorem C04_reader_decodes_spec_file :
+  forall (d : db) (p : dec_params) (u : bool) (order : list bs_okey) (cmps : list compression)
+         (f : bs_file) (P1 P2 : list bs_item),
+       dp_lim p = None ->
+       file_dom_ok f = true ->
+       props_file_okb f = true ->
+       gframes_rt p cmps (List.map (bs_enc_item rdA u) (bs_items_of order f)) ->
+       flat_map (item_of_key f) order = P1 ++ P2 ->
+       forallb (fun it : bs_item => negb (is_prop it)) P1 = true ->
+       forallb (fun it : bs_item => negb (is_reg it)) P2 = true ->
+       Permutation.Permutation (bs_insts P1) (bf_classes f) ->
+       bs_prnts (P1 ++ P2) = [bf_prnt f] ->
+       Permutation.Permutation (bs_props P2) (bf_props f) ->
+       bs_sstrs P1 = match bf_sstr f with
+                     | Some l => [l]
+                     | None => []
+                     end ->
+       scan d [] 0 (P1 ++ P2) = true ->
+       inst_prnt_ok false (P1 ++ P2) = true ->
+       scan d (bs_insts P1) (sstr_total P1) P2 = true ->
+       forallb (prop_unknown d (bs_insts P1)) (bs_props P2) = true ->
+       exists (st : dstate) (out : cdom) (nodes : list bs_node),
+         decode_file d p
+           (bs_enc_header (bs_header_of f) ++
+            gframe_all cmps (List.map (bs_enc_item rdA u) (bs_items_of order f))) = 
+         Ok out /\
+         bspec_to_dom f = Ok nodes /\
+         same_dom (phi_of (f_kids f) (D_of st)) (node_same (phi_of (f_kids f) (D_of st)) p) nodes out.
+Proof. exact reader_decodes_spec_file. Qed.
 
 Theorem C04_chunk_order_independent :
   forall (d : db) (p : dec_params) (f : bs_file) (u1 : bool) (order1 : list bs_okey)
@@ -310,6 +328,58 @@ Theorem C04_chunk_order_independent :
        scan d [] 0 (P1' ++ P2') = true ->
        inst_prnt_ok false (P1' ++ P2') = true ->
        scan d (bs_insts P1) (sstr_total P1) P2 = true ->
+       forallb (prop_nonmig d (bs_insts P1)) (bs_props P2) = true ->
+       scan d (bs_insts P1') (sstr_total P1') P2' = true ->
+       forallb (prop_nonmig d (bs_insts P1')) (bs_props P2') = true ->
+       exists (nodes : list bs_node) (st1 : dstate) (out1 : cdom) (st2 : dstate) 
+       (out2 : cdom),
+         bspec_to_dom f = Ok nodes /\
+         decode_file d p
+           (bs_enc_header (bs_header_of f) ++
+            gframe_all cmps1 (List.map (bs_enc_item rdA u1) (bs_items_of order1 f))) = 
+         Ok out1 /\
+         decode_file d p
+           (bs_enc_header (bs_header_of f) ++
+            gframe_all cmps2 (List.map (bs_enc_item rdA u2) (bs_items_of order2 f))) = 
+         Ok out2 /\
+         same_dom (phi_of (f_kids f) (D_of st1)) (node_rec d f p st1 (bs_props P2)) nodes out1 /\
+         same_dom (phi_of (f_kids f) (D_of st2)) (node_rec d f p st2 (bs_props P2')) nodes out2.
+Proof. exact chunk_order_independent. Qed.
+
+Theorem C04_chunk_order_independent_full :
+  forall (d : db) (p : dec_params) (f : bs_file) (u1 : bool) (order1 : list bs_okey)
+         (cmps1 : list compression) (P1 P2 : list bs_item) (u2 : bool) (order2 : list bs_okey)
+         (cmps2 : list compression) (P1' P2' : list bs_item),
+       dp_lim p = None ->
+       file_dom_ok f = true ->
+       props_file_okb f = true ->
+       gframes_rt p cmps1 (List.map (bs_enc_item rdA u1) (bs_items_of order1 f)) ->
+       gframes_rt p cmps2 (List.map (bs_enc_item rdA u2) (bs_items_of order2 f)) ->
+       flat_map (item_of_key f) order1 = P1 ++ P2 ->
+       flat_map (item_of_key f) order2 = P1' ++ P2' ->
+       forallb (fun it : bs_item => negb (is_prop it)) P1 = true ->
+       forallb (fun it : bs_item => negb (is_reg it)) P2 = true ->
+       forallb (fun it : bs_item => negb (is_prop it)) P1' = true ->
+       forallb (fun it : bs_item => negb (is_reg it)) P2' = true ->
+       Permutation.Permutation (bs_insts P1) (bf_classes f) ->
+       bs_prnts (P1 ++ P2) = [bf_prnt f] ->
+       Permutation.Permutation (bs_insts P1') (bf_classes f) ->
+       bs_prnts (P1' ++ P2') = [bf_prnt f] ->
+       Permutation.Permutation (bs_props P2) (bf_props f) ->
+       bs_sstrs P1 = match bf_sstr f with
+                     | Some l => [l]
+                     | None => []
+                     end ->
+       Permutation.Permutation (bs_props P2') (bf_props f) ->
+       bs_sstrs P1' = match bf_sstr f with
+                      | Some l => [l]
+                      | None => []
+                      end ->
+       scan d [] 0 (P1 ++ P2) = true ->
+       inst_prnt_ok false (P1 ++ P2) = true ->
+       scan d [] 0 (P1' ++ P2') = true ->
+       inst_prnt_ok false (P1' ++ P2') = true ->
+       scan d (bs_insts P1) (sstr_total P1) P2 = true ->
        forallb (prop_unknown d (bs_insts P1)) (bs_props P2) = true ->
        scan d (bs_insts P1') (sstr_total P1') P2' = true ->
        forallb (prop_unknown d (bs_insts P1')) (bs_props P2') = true ->
@@ -324,9 +394,47 @@ Theorem C04_chunk_order_independent :
            (bs_enc_header (bs_header_of f) ++
             gframe_all cmps2 (List.map (bs_enc_item rdA u2) (bs_items_of order2 f))) = 
          Ok out2 /\
-         same_dom (phi_of (f_kids f) (D_of st1)) (node_rec f p st1 (bs_props P2)) nodes out1 /\
-         same_dom (phi_of (f_kids f) (D_of st2)) (node_rec f p st2 (bs_props P2')) nodes out2.
-Proof. exact chunk_order_independent. Qed.
+         same_dom (phi_of (f_kids f) (D_of st1)) (node_same (phi_of (f_kids f) (D_of st1)) p) nodes out1 /\
+         same_dom (phi_of (f_kids f) (D_of st2)) (node_same (phi_of (f_kids f) (D_of st2)) p) nodes out2.
+Proof. exact chunk_order_independent_full. Qed.
+
+Theorem C04_known_prop_in_fold :
+  forall (d : db) (cl : bs_class) (k : nat) (sstr : list (bytes * bytes)) (lo : Z -> N)
+         (props : list bs_prop) (pr : bs_prop) (col : bs_column) (ty : wire_type) 
+         (nm : bytes) (cty : N) (vals : list value) (v : value),
+       only_prop d cl props nm pr ->
+       bp_body pr = BValues col ->
+       wire_of_id (bs_col_type col) = Some ty ->
+       find_canonical_property d ty (cls_name cl) (bp_name pr) = Ok (Some (nm, cty, None)) ->
+       bs_col_values sstr lo col = Ok vals ->
+       nth_error vals k = Some v ->
+       bfind nm (collect_props (snd (fold_left (pstepD d sstr lo cl k) props (cls_name cl, [])))) =
+       Some (retype cty v).
+Proof. exact known_prop_in_fold. Qed.
+
+Theorem C04_known_property_whole_file :
+  forall (d : db) (p : dec_params) (u : bool) (order : list bs_okey) (cmps : list compression)
+         (f : bs_file) (P1 P2 : list bs_item),
+       dp_lim p = None ->
+       file_dom_ok f = true ->
+       gframes_rt p cmps (List.map (bs_enc_item rdA u) (bs_items_of order f)) ->
+       flat_map (item_of_key f) order = P1 ++ P2 ->
+       forallb (fun it : bs_item => negb (is_prop it)) P1 = true ->
+       forallb (fun it : bs_item => negb (is_reg it)) P2 = true ->
+       Permutation.Permutation (bs_insts P1) (bf_classes f) ->
+       bs_prnts (P1 ++ P2) = [bf_prnt f] ->
+       scan d [] 0 (P1 ++ P2) = true ->
+       inst_prnt_ok false (P1 ++ P2) = true ->
+       scan d (bs_insts P1) (sstr_total P1) P2 = true ->
+       forallb (prop_nonmig d (bs_insts P1)) (bs_props P2) = true ->
+       exists (st : dstate) (out : cdom) (nodes : list bs_node),
+         decode_file d p
+           (bs_enc_header (bs_header_of f) ++
+            gframe_all cmps (List.map (bs_enc_item rdA u) (bs_items_of order f))) = 
+         Ok out /\
+         bspec_to_dom f = Ok nodes /\
+         same_dom (phi_of (f_kids f) (D_of st)) (node_known d f p st (bs_props P2)) nodes out.
+Proof. exact known_property_whole_file. Qed.
 
 Theorem C04_compression_and_rotation_independent :
   forall (d : db) (p : dec_params) (u1 u2 : bool) (order : list bs_okey)
@@ -344,14 +452,6 @@ Theorem C04_compression_and_rotation_independent :
           gframe_all cmps2 (List.map (bs_enc_item rdA u2) (bs_items_of order f))).
 Proof. exact compression_and_rotation_independent. Qed.
 
-(* could not find ref_before_inst_order_refuted *)
-(* could not find sstr_after_prop_order_refuted *)
-(* could not find prnt_before_inst_order_refuted *)
-(* could not find faces_high_bits_refuted *)
-(* could not find brickcolor_not_in_palette_refuted *)
-(* could not find font_weight_misread_refuted *)
-(* could not find duplicate_prop_last_wins *)
-(* could not find prnt_cycle_dropped *)
 Theorem C04_ref_before_inst_order_refuted :
   bs_wf BinSpecReadExamples.f_ref = true /\
        bs_doc_wf BinSpecReadExamples.f_ref = true /\
